@@ -41,6 +41,7 @@ type c08Case struct {
 	Opts    udOpts  `json:"opts"`
 	Synth   bool    `json:"synthetic,omitempty"` // bounded-exhaustive allocation arm
 	CLI     bool    `json:"cli,omitempty"`
+	SlowIdx int     `json:"slow_idx,omitempty"`   // C09: index+1 of a target record whose worker is held back (0 = none)
 	QCSV    bool    `json:"query_csv,omitempty"`  // C08: give --query as the updown-list CSV of the same alignment
 	TCSV    bool    `json:"target_csv,omitempty"` // C08: give --target as CSV
 }
